@@ -159,6 +159,11 @@ impl Monitor for C03 {
                         Tok::B => (rate_of(pre.pool_b, pre.bsei.supply - amount + h.bsei_amount), pre.rs),
                         Tok::St => (pre.rb, rate_of(pre.pool_s, pre.stsei.supply - amount + h.stsei_amount)),
                     };
+                    // requests against a pool that slashing has wiped out cannot be undelegated at all: the reported
+                    // rate is then only the definitional 1 ("1 when either is zero") and the property's pricing clause
+                    // speaks about bonded stake; such requests are worth nothing
+                    let exp_rb = if pre.pool_b == 0 { 0 } else { exp_rb };
+                    let exp_rs = if pre.pool_s == 0 { 0 } else { exp_rs };
                     let expected = mul_rate(h.bsei_amount, exp_rb) + mul_rate(h.stsei_amount, exp_rs);
                     if und != expected {
                         out.violation(
